@@ -327,7 +327,9 @@ func c07CheckTree(c *vk.Ctx, p *parser.Parser, pops []*c07Pop, t *selgen.Node, f
 	sel, err := p.Parse(src)
 	calls++
 	if err != nil {
-		c.ToolError("C07 generator produced a selector the parser rejects: " + src + ": " + err.Error())
+		// whether the parser accepts every grammar form is C06's subject; here the selector is skipped
+		c.Add("generated_selectors_rejected_by_parser", 1)
+		c.NotExhaustive("the parser rejected generated selectors (see C06); they were skipped, first: " + src)
 		return
 	}
 	kind := t.Kind.String()
@@ -516,11 +518,7 @@ func c07Prune(c *vk.Ctx, workers int) {
 				var n int64
 				if err := vk.Catch(func() error { n = j(p); return nil }); err != nil {
 					pe := err.(*vk.PanicError)
-					line := pe.Val
-					if i := strings.IndexByte(line, '\n'); i >= 0 {
-						line = line[:i]
-					}
-					c.Violation("C07:pruned-scan:panic:"+line, map[string]any{"panic": pe.Val, "stack": pe.Stack})
+					c.Violation("C07:pruned-scan:panic:"+c07PanicLine(pe.Val), map[string]any{"panic": pe.Val, "stack": pe.Stack})
 				}
 				atomic.AddInt64(&nCalls, n)
 			}
